@@ -549,7 +549,7 @@ def prop_accuracy(case, ctx):
     d = len(Y1)
     what = "accuracy"
     g = Guard(ctx, what)
-    own = case["rel"] == "indep" and case["own_scales"]
+    own = case["rel"] == "indep" and case.get("own_scales", False)
     ctx.label(f"d={d}" if d in (2, 3, 50, 300, 1000, 3000) else "d=other", "rel:" + case["rel"], "pat:" + case["sc"]["pat"],
               "scales:own" if own else "scales:shared+gap")
     if own and case["sc"]["pat"] != case["sc2"]["pat"]:
